@@ -13,7 +13,7 @@ import (
 func init() {
 	register("C08", &propDef{
 		Title: "A finished bundle contains everything that was added or discovered",
-		Rules: []func(*Checker){ruleC08NoDrop, ruleC08Drain, ruleC08Callbacks, ruleC08Manifest, ruleC08SameJoin, ruleC08Lookup, ruleC08Meta, ruleCopiedWhenEmpty("C08.metacopy"), ruleArgOrder("C08.argorder"), ruleTracerNonNil("C08.tracer"), ruleNameAgreement("C08.names", "sourcebundle"), ruleC08DirName, ruleRecordComplete("C08.complete"), aliasRule(ruleC11JoinOrder, "C11.joinorder", "C08.finaladdr", 3)},
+		Rules: []func(*Checker){ruleC08NoDrop, ruleC08Drain, ruleC08Callbacks, ruleC08Manifest, ruleC08SameJoin, ruleC08Lookup, ruleC08Meta, ruleCopiedWhenEmpty("C08.metacopy"), ruleGuardOwnField("C08.metaguard"), ruleArgOrder("C08.argorder"), ruleTracerNonNil("C08.tracer"), ruleNameAgreement("C08.names", "sourcebundle"), ruleC08DirName, ruleRecordComplete("C08.complete"), aliasRule(ruleC11JoinOrder, "C11.joinorder", "C08.finaladdr", 3)},
 		NotDecided: []string{
 			"transitive closure over arbitrary dependency graphs and the content of fetched files (run-time facts)",
 			"that looked-up paths exist on disk",
@@ -22,7 +22,7 @@ func init() {
 	register("C09", &propDef{
 		Title: "A bundle survives being re-opened and archived",
 		Rules: []func(*Checker){ruleC09Fields, ruleC09Archive, ruleChecksum("C09.checksum"), ruleC06ManifestAs("C09.addrs"),
-			ruleRootSymmetric("C09.symmetric"), ruleLinkPrecise("C09.linkprecise"), ruleC09Answers, ruleLocalMemo("C09.localmemo"), ruleNameAgreement("C09.names", "sourcebundle"),
+			ruleRootSymmetric("C09.symmetric"), ruleLinkPrecise("C09.linkprecise"), ruleC09Answers, ruleLocalMemo("C09.localmemo"), ruleGuardOwnField("C09.metaguard"), ruleNameAgreement("C09.names", "sourcebundle"),
 			aliasRuleFiltered(ruleC02LinkTarget, "C02.linktarget", "C09.linktarget", 1, func(o Oblig) bool { return strings.Contains(o.Key, "Unpack") }),
 			aliasRuleFiltered(ruleC06CanonURL, "C06.canonurl", "C09.canonkey", 1, func(o Oblig) bool { return strings.Contains(o.Key, "canonical") }),
 			aliasRuleFiltered(ruleC13Maps, "C13.maps", "C09.lookup", 3, func(o Oblig) bool {
@@ -3081,4 +3081,124 @@ func removeAllCalls(p *Prog, fn *ssa.Function) []ssa.CallInstruction {
 		}
 	}
 	return out
+}
+
+// loadedFieldOwner: like loadedField, with the struct type the field belongs to.
+func loadedFieldOwner(v ssa.Value) (*types.Var, string) {
+	own := func(t types.Type) string {
+		if pt, ok := t.Underlying().(*types.Pointer); ok {
+			t = pt.Elem()
+		}
+		return types.TypeString(t, nil)
+	}
+	switch x := canon(v).(type) {
+	case *ssa.UnOp:
+		if fa, ok := x.X.(*ssa.FieldAddr); ok && x.Op == token.MUL {
+			return fieldOf(fa), own(fa.X.Type())
+		}
+	case *ssa.Field:
+		return fieldOf(x), own(x.X.Type())
+	}
+	return nil, ""
+}
+
+// ruleGuardOwnField — a metadata field that is copied under a "not empty" test
+// is copied under a test of ITSELF, and a metadata record is only made where
+// one of its fields is present.
+func ruleGuardOwnField(id string) func(*Checker) {
+	return func(c *Checker) {
+		c.rule(id, "In the manifest writer and reader, (a) a string field that is stored, recorded or handed to a module function in a block that lies behind `field != \"\"` tests of fields of the same struct lies behind the not-empty edge of a test of that very field — `if m.message != \"\" { out.id = m.id }` drops a commit id whenever there is no message, and a reader that asks only for one field of two loses the other one alone (F49); (b) a *PackageMeta built from manifest fields is put into the bundle's table only behind the not-empty tests of exactly those fields (RemotePackageMeta answers nil where nothing is known).", 3)
+		p := c.P
+		type test struct {
+			fld   *types.Var
+			owner string
+			e     Edge
+		}
+		for _, fn := range p.Funcs {
+			if !inBundlePkg(p, fn) {
+				continue
+			}
+			var tests []test
+			for _, b := range fn.Blocks {
+				ifi, ok := b.Instrs[len(b.Instrs)-1].(*ssa.If)
+				if !ok {
+					continue
+				}
+				cond, neg := stripNot(ifi.Cond)
+				bo, ok := cond.(*ssa.BinOp)
+				if !ok || (bo.Op != token.EQL && bo.Op != token.NEQ) {
+					continue
+				}
+				if e, isC := constString(bo.Y); !isC || e != "" {
+					continue
+				}
+				fld, owner := loadedFieldOwner(bo.X)
+				if fld == nil || !strings.Contains(owner, "Meta") {
+					continue
+				}
+				ne := 1
+				if (bo.Op == token.NEQ) != neg {
+					ne = 0
+				}
+				tests = append(tests, test{fld, owner, Edge{b, ne}})
+			}
+			for _, b2 := range fn.Blocks {
+				for _, in := range b2.Instrs {
+					var vals []ssa.Value
+					isRecord := false
+					switch x := in.(type) {
+					case *ssa.Store:
+						vals = []ssa.Value{x.Val}
+					case *ssa.MapUpdate:
+						vals = []ssa.Value{x.Value}
+						if call, ok := canon(x.Value).(*ssa.Call); ok && strings.HasSuffix(types.TypeString(x.Value.Type(), nil), "PackageMeta") {
+							if g := call.Common().StaticCallee(); g != nil && p.InModule(g) {
+								vals = call.Call.Args
+								isRecord = true
+							}
+						}
+					case *ssa.Call:
+						if g := x.Common().StaticCallee(); g != nil && p.InModule(g) {
+							vals = x.Call.Args
+						}
+					}
+					var recEdges []Edge
+					recFields := []string{}
+					for _, v := range vals {
+						fld, owner := loadedFieldOwner(v)
+						if fld == nil {
+							continue
+						}
+						var own, all []Edge
+						for _, t := range tests {
+							if t.owner != owner {
+								continue
+							}
+							all = append(all, t.e)
+							if t.fld == fld {
+								own = append(own, t.e)
+							}
+						}
+						if isRecord {
+							recEdges = append(recEdges, own...)
+							recFields = append(recFields, fld.Name())
+						}
+						if len(all) == 0 || !guarded(b2, all) {
+							continue
+						}
+						ok := false
+						for _, e := range own {
+							if e.To().Dominates(b2) {
+								ok = true
+							}
+						}
+						c.check(ok, id, p.FuncName(fn), fmt.Sprintf("field %s copied behind its own not-empty test", fld.Name()), p.Pos(in.Pos()), "a not-empty test of the field leads to the copy", "the copy of "+fld.Name()+" lies behind not-empty tests of other fields of "+owner+" only: the field is lost whenever those are empty, and copied empty when they are not")
+					}
+					if isRecord {
+						c.check(len(recEdges) > 0 && guarded(b2, recEdges), id, p.FuncName(fn), "metadata recorded only where a field is present", p.Pos(in.Pos()), "behind the not-empty tests of "+strings.Join(recFields, ", "), "a *PackageMeta is put into the table on a path that passes no not-empty test of the fields it is made of ("+strings.Join(recFields, ", ")+"): every package then has metadata, all of it empty")
+					}
+				}
+			}
+		}
+	}
 }
